@@ -425,7 +425,46 @@ var DeepFamilies = []DeepFamily{
 	{"autolinks", func(n int) []byte { return []byte(rep("<http://a.b>", n)) }},
 	{"linkify-www", func(n int) []byte { return []byte(rep("www.a.b ", n)) }},
 	{"parens-url", func(n int) []byte { return []byte("[a](" + rep("(", n) + rep(")", n) + ")") }},
+	// families around the size limits the specification or the implementation names (999-character labels, 9-digit list
+	// numbers, 32 nested parentheses, 7/6-digit numeric references, 6 heading levels)
+	{"long-label-shortcut", func(n int) []byte { return []byte("[" + rep("a", n) + "]") }},
+	{"long-label-image", func(n int) []byte { return []byte("![" + rep("a", n) + "] b") }},
+	{"long-label-collapsed", func(n int) []byte { return []byte("[" + rep("a", n) + "][]\n\n[" + rep("a", n) + "]: /u") }},
+	{"long-label-full", func(n int) []byte { return []byte("[t][" + rep("a", n) + "]\n\n[" + rep("A", n) + "]: /u") }},
+	{"long-label-words", func(n int) []byte { return []byte("[" + rep("ab ", n) + "] (x)") }},
+	{"long-label-footnote", func(n int) []byte { return []byte("[^" + rep("a", n) + "]\n\n[^" + rep("a", n) + "]: n") }},
+	{"long-link-text", func(n int) []byte { return []byte("[" + rep("a ", n) + "](/u)") }},
+	{"long-title", func(n int) []byte { return []byte("[a](/u \"" + rep("t", n) + "\")") }},
+	{"long-destination", func(n int) []byte { return []byte("[a](<" + rep("u", n) + ">) <http://" + rep("h", n) + ">") }},
+	{"list-number-digits", func(n int) []byte { return []byte(rep("1", n) + ". a\n" + rep("2", n) + ") b") }},
+	{"heading-level", func(n int) []byte { return []byte(rep("#", n) + " a " + rep("#", n) + "\n\na\n" + rep("=", n)) }},
+	{"numeric-reference-digits", func(n int) []byte { return []byte("&#" + rep("1", n) + "; &#x" + rep("f", n) + "; &#0" + rep("0", n) + "65;") }},
+	{"fence-length", func(n int) []byte { return []byte(rep("`", n) + "\na\n" + rep("`", n) + "\n" + rep("~", n) + " i\nb") }},
+	{"indent-columns", func(n int) []byte { return []byte(rep(" ", n) + "- a\n" + rep(" ", n) + "> b\n" + rep(" ", n) + "# c\n" + rep(" ", n) + "```\n" + rep(" ", n) + "d") }},
+	{"table-columns", func(n int) []byte {
+		if n > 3000 {
+			n = 3000
+		}
+		return []byte(rep("|a", n) + "|\n" + rep("|:-:", n) + "|\n" + rep("|b", n+1) + "|\n|c|")
+	}},
+	{"heading-attributes", func(n int) []byte { return []byte("# h {" + rep("k=v ", n) + "#i}") }},
+	{"emphasis-run-length", func(n int) []byte { return []byte(rep("*", n) + "a" + rep("*", n) + " " + rep("_", n) + "b" + rep("_", n)) }},
 }
+
+// FirstLimitFamily is the index of the first of the "limit" families (cheap at every boundary size).
+var FirstLimitFamily = func() int {
+	for i, f := range DeepFamilies {
+		if f.Name == "long-label-shortcut" {
+			return i
+		}
+	}
+	return len(DeepFamilies)
+}()
+
+// BoundarySizes are the sizes at which the families above are run by the structural monitors: small values and both sides of
+// powers of two and of the limits the specification names.
+var BoundarySizes = []int{0, 1, 2, 3, 4, 5, 6, 7, 8, 9, 10, 11, 15, 16, 17, 31, 32, 33, 63, 64, 65, 99, 100, 101, 127, 128, 129, 255, 256, 257,
+	511, 512, 513, 997, 998, 999, 1000, 1001, 1002, 1023, 1024, 1025, 2047, 2048, 2049, 4095, 4096, 4097}
 
 func itoa(i int) string {
 	if i == 0 {
